@@ -840,7 +840,7 @@ theorem c01_compose_partial (qs : List Group) (fs : Group → List ℝ → ℝ) 
 
 /-- every input that touches an ensemble has all the chains of that ensemble that occur among the inputs -/
 def Complete (X : List (Obs ℝ)) : Prop :=
-  ∀ x ∈ X, ∀ x' ∈ X, ∀ m ∈ x'.names, ∀ e, e ∈ x.mcNames → (e ++ "|").isPrefixOf m = true → m ∈ x.names
+  ∀ x ∈ X, ∀ x' ∈ X, ∀ m ∈ x'.names, ∀ e, e ∈ x.mcNames → ((e ++ "|").isPrefixOf m || m == e) = true → m ∈ x.names
 
 theorem names_of_mem_newSampleNames (xs : List (Obs ℝ)) (m : String) (h : m ∈ newSampleNames xs) :
     ∃ x ∈ xs, m ∈ x.names := by
@@ -1059,7 +1059,7 @@ theorem chainsOf_names_nodup (x : Obs ℝ) (hwf : x.WF = true) (e : String) : (S
   exact (names_nodup x hwf).filter _
 
 theorem mem_chainsOf (names : List String) (e m : String) :
-    m ∈ Spec.chainsOf names e ↔ m ∈ names ∧ (e ++ "|").isPrefixOf m = true := by
+    m ∈ Spec.chainsOf names e ↔ m ∈ names ∧ ((e ++ "|").isPrefixOf m || m == e) = true := by
   unfold Spec.chainsOf; rw [List.mem_filter]
 
 /-- the up-weighting factors telescope when every input has each of its chains on the full configuration list of
@@ -1069,7 +1069,7 @@ theorem weight_telescope_subsets (qs : List Group) (q : Group) (hq : q ∈ qs) (
     (hd : ∀ q ∈ qs, IsDerived q.G q.X q.y)
     (hwfX : ∀ x ∈ totalInputs qs, x.WF = true) (hwfY : ∀ q ∈ qs, q.y.WF = true)
     (hS : SameCfgs (totalInputs qs))
-    (hbar : ∀ x ∈ totalInputs qs, ∀ m ∈ x.names, (Py.ensOf m ++ "|").isPrefixOf m = true)
+    (hbar : ∀ x ∈ totalInputs qs, ∀ m ∈ x.names, ((Py.ensOf m ++ "|").isPrefixOf m || m == Py.ensOf m) = true)
     (hne : ∀ x ∈ totalInputs qs, ∀ m, (x.rep? m).isSome = true → Spec.cfgs x m ≠ [])
     (hinT : ∀ x ∈ totalInputs qs, ∀ m ∈ x.names, m ∈ newSampleNames (totalInputs qs))
     (hinY : ∀ q ∈ qs, ∀ m ∈ q.y.names, m ∈ newSampleNames (qs.map (·.y)))
@@ -1093,7 +1093,7 @@ theorem weight_telescope_subsets (qs : List Group) (q : Group) (hq : q ∈ qs) (
     exact_mod_cast this.ne'
   -- the ensemble and the three sets of chains
   set e := Py.ensOf n with he
-  have hpre : (e ++ "|").isPrefixOf n = true := hbar x hxT n hnx
+  have hpre : ((e ++ "|").isPrefixOf n || n == e) = true := hbar x hxT n hnx
   have hex : e ∈ x.mcNames := (mem_mcNames x e).mpr ⟨n, hnx, rfl⟩
   have hny : n ∈ q.y.names := (rep_isSome_iff q.y n).mp (((hd q hq).hasChain n).mpr hnQ)
   have hey : e ∈ q.y.mcNames := (mem_mcNames q.y e).mpr ⟨n, hny, rfl⟩
@@ -1168,7 +1168,9 @@ theorem weight_telescope_subsets (qs : List Group) (q : Group) (hq : q ∈ qs) (
 
 /-- **C01 (independence of the splitting into intermediate steps), for inputs that lack whole replicas.**  If every
     input has each of its chains on the full configuration list of that chain (`SameCfgs`; inputs may lack whole
-    replicas of an ensemble, so missing-replica factors do occur) and chain names carry their replica suffix, the
+    replicas of an ensemble, so missing-replica factors do occur) and every chain name is its ensemble's name or starts with `ensemble|`
+    (`hbar`: true of every string, stated as a decidable hypothesis instead of a lemma about `String.isPrefixOf`;
+    a chain called exactly like its ensemble counts as a replica since the repair of the missing-replica factor), the
     two-level evaluation and the one-shot evaluation with the chain-rule gradient carry the same fluctuation on
     every chain and configuration: the union factors are 1 and the missing-replica factors of the two levels
     multiply to the one-shot factor (`weight_telescope_subsets`). -/
@@ -1181,7 +1183,7 @@ theorem c01_compose_subsets (qs : List Group) (fs : Group → List ℝ → ℝ) 
     (hz1 : derivedObs F (totalGrad qs) (totalInputs qs) covEq = .ok z1)
     (hne : ∀ q ∈ qs, ∀ x ∈ q.X, ∀ n, (x.rep? n).isSome = true → Spec.cfgs x n ≠ [])
     (hS : SameCfgs (totalInputs qs))
-    (hbar : ∀ x ∈ totalInputs qs, ∀ m ∈ x.names, (Py.ensOf m ++ "|").isPrefixOf m = true) :
+    (hbar : ∀ x ∈ totalInputs qs, ∀ m ∈ x.names, ((Py.ensOf m ++ "|").isPrefixOf m || m == Py.ensOf m) = true) :
     ∀ n, n ∈ newSampleNames (qs.map (·.y)) → n ∈ newSampleNames (totalInputs qs) →
       ∀ c ∈ Spec.unionCfgs (totalInputs qs) n, z.delta? n c = z1.delta? n c := by
   intro n hn1 hn2 c hc
